@@ -441,6 +441,7 @@ type result struct {
 	walk    string
 	hung    bool
 	wedged  bool
+	probe   string
 	elapsed time.Duration
 }
 
@@ -574,14 +575,14 @@ func (e *env) open(cfg roundCfg) (*store, error) {
 		// store was left inside a transaction.  Closing the store releases it; what
 		// is committed is what counts.
 		st.wedged = true
-		db.DB.Close()
+		hx.WithTimeout(5*time.Second, func() { db.DB.Close() })
 		if es, ok := read(300); ok {
 			return es
 		}
 		return []ent{{k: "dump-error"}}
 	}
 	st.cleanup = func() {
-		db.DB.Close()
+		hx.WithTimeout(5*time.Second, func() { db.DB.Close() }) // a leaked connection must not hold up the harness
 		os.Remove(file)
 		os.Remove(file + "-journal")
 	}
@@ -609,6 +610,19 @@ func (res *result) observe(st *store) {
 	res.walk = classify("walk", werr) + ":[" + strings.Join(vs, ",") + "]"
 	es := st.dump()
 	res.wedged = st.wedged
+	// with every goroutine back nothing contends: a write must go through
+	res.probe = "never-returns"
+	if !st.wedged {
+		hx.WithTimeout(20*time.Second, func() {
+			r := classify("add", kv.Add("probe-after-quiescence", json.RawMessage("1")))
+			if r == "ok" {
+				r = classify("remove", kv.Remove("probe-after-quiescence"))
+			}
+			res.probe = r
+		})
+	} else {
+		res.probe = "skipped"
+	}
 	sort.Slice(es, func(i, j int) bool { return es[i].k < es[j].k })
 	var xs []string
 	byMapped := map[string]ent{}
@@ -708,7 +722,9 @@ func (e *env) schedCommitBusy(cfg roundCfg, watchdog time.Duration) (*result, er
 		res.hung = true
 		return res, nil
 	}
-	res.observe(st)
+	if !hx.WithTimeout(watchdog, func() { res.observe(st) }) {
+		res.hung = true // a quiescent Count/Walk/dump that does not return
+	}
 	return res, nil
 }
 
@@ -755,7 +771,9 @@ func (e *env) runRound(cfg roundCfg, watchdog time.Duration) (*result, error) {
 	for _, p := range progs {
 		res.calls = append(res.calls, p...)
 	}
-	res.observe(st)
+	if !hx.WithTimeout(watchdog, func() { res.observe(st) }) {
+		res.hung = true // a quiescent Count/Walk/dump that does not return
+	}
 	return res, nil
 }
 
@@ -798,6 +816,10 @@ func (res *result) judge(rep *hx.Report) (fails [][2]string, v verdict) {
 	if res.wedged {
 		fail("store-wedged", "with every goroutine back, the database file stayed locked until the store was closed "+
 			"(a pooled connection was left inside a transaction); Count then answered %s", res.count)
+	}
+	if res.probe != "ok" && res.probe != "skipped" {
+		fail("busy-at-quiescence", "with every goroutine back and nobody using the store, Add of a fresh key answered %s: "+
+			"an earlier call left a transaction or a lock behind", res.probe)
 	}
 	for k := range res.final {
 		if strings.HasPrefix(k, "?") {
@@ -1039,25 +1061,20 @@ func main() {
 	for _, cfg := range rounds {
 		for rep := 0; rep < reps; rep++ {
 			j.Risky(cfg.String())
-			// a round is a few hundred milliseconds of work; the watchdog only catches a deadlock
-			res, err := e.runRound(cfg, 120*time.Second)
+			// a round is a few hundred milliseconds of work; the watchdog only catches a call that does not return
+			res, err := e.runRound(cfg, 40*time.Second)
 			if err != nil {
 				rp.Note("round %s could not be set up: %v", cfg, err)
 				continue
 			}
 			if res.hung {
 				// re-run alone before calling it a hang
-				hung := 1
-				for k := 0; k < 2; k++ {
-					r2, err := e.runRound(cfg, 120*time.Second)
-					if err == nil && r2.hung {
-						hung++
-					}
-				}
-				if hung == 3 {
-					rp.Fail(cfg.backend+":hang", "a round did not finish within 120 s, three times in a row: "+cfg.String(), []string{cfg.String()})
+				r2, err := e.runRound(cfg, 40*time.Second)
+				if err == nil && r2.hung {
+					rp.Fail(cfg.backend+":op-never-returns", "a round (well under a second of work) did not finish within 40 s, twice in a row: "+
+						"some call on the store does not return: "+cfg.String(), []string{cfg.String()})
 				} else {
-					rp.Note("round %s exceeded the watchdog once (%d/3); not reported", cfg, hung)
+					rp.Note("round %s exceeded the watchdog once and finished when re-run; not reported", cfg)
 				}
 				continue
 			}
@@ -1095,7 +1112,7 @@ func main() {
 		}
 	}
 	j.Clear()
-	rp.Note("slowest round: %d ms (watchdog 120000 ms)", slowest.Milliseconds())
+	rp.Note("slowest round: %d ms (watchdog 40000 ms)", slowest.Milliseconds())
 
 	// the Lean reference map replays every linearization
 	var lines, expect []string
